@@ -185,6 +185,121 @@ pub fn projections() -> Vec<Proj> {
         w.push(u);
     }
     v.extend(w);
+    v.extend(generated());
+    // the same definition listed twice is evaluated once
+    let mut seen = std::collections::HashSet::new();
+    v.retain(|t| seen.insert(t.def.clone()));
+    v
+}
+
+/// Complete products over small per-projection parameter alphabets. The aspect label names the
+/// branch class (not the values), so that one root cause is reported under one key.
+fn generated() -> Vec<Proj> {
+    let mut v = Vec::new();
+    let leak = |s: String| -> &'static str { Box::leak(s.into_boxed_str()) };
+    let offs = [("", ""), (" x_0=500000 y_0=-1234.5", " + offsets")];
+    // merc: lon_0 x (k_0 | lat_ts) x offsets
+    for lon_0 in [0., 9., -100., 179.5] {
+        for (scale, sl) in [("", "k_0=1"), (" k_0=0.9996", "k_0"), (" lat_ts=56", "lat_ts north"), (" lat_ts=-30", "lat_ts south"), (" lat_ts=85", "lat_ts north")] {
+            for (o, ol) in offs {
+                v.push(p("merc", leak(format!("gen {sl}{ol}")), &format!("merc lon_0={lon_0}{scale}{o}"), lon_0, 0.));
+            }
+        }
+    }
+    // tmerc / btmerc: lat_0 x lon_0 x k_0 x offsets
+    for (op, lat0s, max_dlon, max_lat, class) in [("tmerc", vec![0., 3., -45., 89.], 30., 90., Class::Rigorous), ("btmerc", vec![0., 3., -45.], 3., 84., Class::Approximate)] {
+        for &lat_0 in &lat0s {
+            for lon_0 in [0., 9., -70., 179.5] {
+                for (k, kl) in [("", "k_0=1"), (" k_0=0.9996", "k_0")] {
+                    for (o, ol) in offs {
+                        let ll = if lat_0 == 0. { "lat_0=0" } else if lat_0 > 0. { "lat_0 north" } else { "lat_0 south" };
+                        let mut t = p(op, leak(format!("gen {ll} {kl}{ol}")), &format!("{op} lat_0={lat_0} lon_0={lon_0}{k}{o}"), lon_0, lat_0);
+                        t.max_dlon = max_dlon;
+                        t.max_abs_lat = max_lat;
+                        t.lat_min = -max_lat;
+                        t.lat_max = max_lat;
+                        t.class = class;
+                        v.push(t);
+                    }
+                }
+            }
+        }
+    }
+    // lcc: standard parallels / origin x lon_0 x k_0 x offsets
+    for (par, pl, lat_c, north) in [
+        ("lat_1=57", "1SP north", 57., true),
+        ("lat_1=57 lat_0=57", "1SP north + lat_0", 57., true),
+        ("lat_1=33 lat_2=45 lat_0=40", "2SP north + lat_0", 40., true),
+        ("lat_1=33 lat_2=45", "2SP north", 39., true),
+        ("lat_1=45 lat_2=33", "2SP north (parallels reversed)", 39., true),
+        ("lat_1=-33 lat_2=-45 lat_0=-40", "2SP south + lat_0", -40., false),
+        ("lat_1=-57 lat_0=-57", "1SP south + lat_0", -57., false),
+        ("lat_1=49 lat_2=77 lat_0=49", "2SP north + lat_0", 49., true),
+        ("lat_1=45 lat_2=45 lat_0=45", "2SP with equal parallels", 45., true),
+        ("lat_1=30 lat_2=60 lat_0=10", "2SP north + lat_0", 10., true),
+    ] {
+        for lon_0 in [12., -95., 150.] {
+            for (k, kl) in [("", ""), (" k_0=0.99", " scaled")] {
+                for (o, ol) in offs {
+                    let mut t = p("lcc", leak(format!("gen {pl}{kl}{ol}")), &format!("lcc {par} lon_0={lon_0}{k}{o}"), lon_0, lat_c);
+                    if north {
+                        t.lat_min = -80.;
+                    } else {
+                        t.lat_max = 80.;
+                    }
+                    v.push(t);
+                }
+            }
+        }
+    }
+    // laea: lat_0 x lon_0 x offsets
+    for (lat_0, al) in [(90., "polar north"), (-90., "polar south"), (0., "equatorial"), (52., "oblique north"), (-37.5, "oblique south"), (10., "oblique north"), (-80., "oblique south")] {
+        for lon_0 in [10., 145., -70., 180.] {
+            for (o, ol) in offs {
+                let mut t = p("laea", leak(format!("gen {al}{ol}")), &format!("laea lat_0={lat_0} lon_0={lon_0}{o}"), lon_0, lat_0);
+                t.conformal = false;
+                t.equal_area = true;
+                t.max_angular = Some(150.);
+                t.max_abs_lat = 90.;
+                t.lat_min = -90.;
+                t.lat_max = 90.;
+                v.push(t);
+            }
+        }
+    }
+    // omerc: variant x centre x azimuth x offsets
+    for (var, vl) in [("", "variant A"), (" variant", "variant B")] {
+        for (latc, lonc) in [(4., 115.), (45., -86.), (-18.9, 46.437), (30., 10.), (-30., -60.)] {
+            // (azimuths in (90, 270) are not used: the Guidance Note's gamma_0 = asin(sin(alpha)/D) cannot represent them)
+            for alpha in [53.3158, -30., 18.9, 90., 337.25556] {
+                for (o, ol) in offs {
+                    let hl = if latc > 0. { "north" } else { "south" };
+                    let al = if alpha == 90. { "alpha=90".to_string() } else if alpha < 0. || alpha > 180. { "alpha west".to_string() } else if alpha > 90. { "alpha obtuse".to_string() } else { "alpha acute".to_string() };
+                    let mut t = p("omerc", leak(format!("gen {vl} {hl} {al}{ol}")), &format!("omerc{var} latc={latc} lonc={lonc} alpha={alpha} gamma_c={alpha} k_0=0.9996{o}"), lonc, latc);
+                    t.class = Class::Approximate;
+                    t.max_dlon = 10.;
+                    t.lat_min = (latc - 10.).max(-89.);
+                    t.lat_max = (latc + 10.).min(89.);
+                    v.push(t);
+                }
+            }
+        }
+    }
+    // somerc: centre x k_0 x offsets
+    for lat_0 in [46.9524055555556, -30., 10., 60.] {
+        for lon_0 in [7.43958333333333, 120., -70.] {
+            for (k, kl) in [("", "k_0=1"), (" k_0=0.9999", "k_0")] {
+                for (o, ol) in offs {
+                    let hl = if lat_0 > 0. { "north" } else { "south" };
+                    let mut t = p("somerc", leak(format!("gen {hl} {kl}{ol}")), &format!("somerc lat_0={lat_0} lon_0={lon_0}{k}{o}"), lon_0, lat_0);
+                    t.max_dlon = 20.;
+                    t.lat_min = (lat_0 - 20.).max(-89.);
+                    t.lat_max = (lat_0 + 20.).min(89.);
+                    v.push(t);
+                }
+            }
+        }
+    }
     v
 }
 
